@@ -409,7 +409,8 @@ def configs(tier, seed):
                 out.append(d)
     for name in ("table", "table-row-ref", "mux", "dtc", "dynlen-field", "static-field",
                  "endmarker-field-mid", "length-key", "structure-bytesize", "physconst-reserved",
-                 "endmarker-field-limited-end-dop", "static-field-minmax-last"):
+                 "endmarker-field-limited-end-dop", "static-field-minmax-last", "mux-key-bits",
+                 "mux-in-structure", "dynlen-field-signed-count"):
         for n in ((2, 3, 4, 5) if tier == "quick" else range(0, 8)):
             if name == "endmarker-field-limited-end-dop" and n > (4 if tier == "quick" else 5):
                 continue  # the probe of every item forks on the text table
